@@ -504,8 +504,15 @@ xds_decoder(vbi_decoder *vbi, int _class, int type,
 				sum |= 1UL << 30;
 
 				if (sum != n->nuid) {
-					if (n->nuid != 0)
+					if (n->nuid != 0) {
+						/* Resets the caption pages under
+						   cc.mutex and may send events. */
+						pthread_mutex_unlock(&vbi->cc.mutex);
+
 						vbi_chsw_reset(vbi, sum);
+
+						pthread_mutex_lock(&vbi->cc.mutex);
+					}
 
 					n->nuid = sum;
 
@@ -1451,6 +1458,9 @@ vbi_caption_channel_switched(vbi_decoder *vbi)
 	cc_channel *ch;
 	int i;
 
+	/* vbi_fetch_cc_page() may run in another thread. */
+	pthread_mutex_lock(&cc->mutex);
+
 	VERIF_REGION("cc.pages", 1);
 
 	for (i = 0; i < 9; i++) {
@@ -1494,6 +1504,8 @@ vbi_caption_channel_switched(vbi_decoder *vbi)
 	cc->info_cycle[1] = 0;
 
 	vbi_caption_desync(vbi);
+
+	pthread_mutex_unlock(&cc->mutex);
 }
 
 static vbi_rgba
